@@ -134,7 +134,18 @@ class Harness:
         full = f"{self.udesc['prop']}.{self.udesc['name']}.{name}"
         from .interp import Obligation
 
-        self.ctx.obligations.append(Obligation(full, [z3.substitute(f, *subs) for f in self.ctx.pc], g, dict(kind="ensures", **meta)))
+        self.ctx.obligations.append(Obligation(full, [z3.substitute(f, *subs) for f in self.ctx.pc], g, dict(kind="ensures", orig=(list(self.ctx.pc), goal.t if isinstance(goal, V) else goal), **meta)))
+
+    def ensures_euf(self, name, goal, **meta):
+        """prove `goal` with every nonlinear product / quotient read as an uninterpreted function of its (flattened,
+        canonically ordered) operands -- a sound generalisation (pyvc.euf); for goals that hold by congruence"""
+        from .euf import abstract_nonlinear, mul_axioms
+        from .interp import Obligation
+
+        g = goal.t if isinstance(goal, V) else goal
+        fs = abstract_nonlinear(list(self.ctx.pc) + [g])
+        full = f"{self.udesc['prop']}.{self.udesc['name']}.{name}"
+        self.ctx.obligations.append(Obligation(full, fs[:-1] + mul_axioms(fs), fs[-1], dict(kind="ensures", euf=True, orig=(list(self.ctx.pc), g), **meta)))
 
     def lemma(self, name, goal, assumptions=()):
         """a standalone (context-free) lemma: proved from `assumptions` only, not from the path condition"""
@@ -298,7 +309,16 @@ def run_unit(udesc, tier="quick", timeout_ms=None, known=None):
     def harness(ctx):
         h = Harness(ctx, udesc, tier)
         holder["h"] = h
-        return udesc["f"](h)
+        try:
+            return udesc["f"](h)
+        finally:
+            # obligations emitted by the theories (alignment, key uniqueness, lemma side conditions) get the unit's
+            # default replay, if it declared one
+            dr = getattr(h, "default_replay", None)
+            if dr is not None:
+                for ob in ctx.obligations:
+                    if ob.meta.get("replay") is None:
+                        ob.meta["replay"] = dr
 
     try:
         results = ex.run(harness)
@@ -346,7 +366,44 @@ def run_unit(udesc, tier="quick", timeout_ms=None, known=None):
                 cr = discharge(list(ob.pc), min(timeout_ms, 10000))
                 covered_pcs[key] = cr["verdict"]
             rec["cover"] = covered_pcs[key]
+            ax = theory_np.axiom_instances(list(ob.pc) + [ob.goal])
+            if ax:
+                ob.pc = list(ob.pc) + ax
             res = discharge(list(ob.pc) + [z3.Not(ob.goal)], timeout_ms, both=both)
+            if res["verdict"] == "sat" and ob.meta.get("orig") is not None:
+                # a counter-model of a GENERALISED obligation (nonlinear terms abstracted) is not a counter-model of the
+                # obligation itself: ask again without the abstraction; only a model of the original refutes
+                opc, ogoal = ob.meta["orig"]
+                opc = list(opc) + theory_np.axiom_instances(list(opc) + [ogoal])
+                res0 = discharge(opc + [z3.Not(ogoal)], max(2000, timeout_ms // 4), both=False)
+                if res0["verdict"] not in ("sat", "unsat") and res.get("model") is not None:
+                    # second attempt: fix the propositional skeleton to the abstract counter-model's (faithful for every
+                    # atom without nonlinear terms) -- what remains is a conjunction of polynomial constraints
+                    from .euf import guide_from_abstract_model
+                    from .solve import run_z3
+
+                    guide = guide_from_abstract_model(res["model"], opc + [ogoal])
+                    r1, m1, dt1, why1 = run_z3(opc + guide + [z3.Not(ogoal)], timeout_ms)
+                    if r1 != "sat":
+                        guide = guide_from_abstract_model(res["model"], opc + [ogoal], values=True)
+                        r1, m1, dt1, why1 = run_z3(opc + guide + [z3.Not(ogoal)], timeout_ms)
+                    if r1 == "sat":
+                        res0 = {"verdict": "sat", "backend": "z3", "seconds": round(dt1, 4), "model": m1, "note": "model of the exact obligation found along the abstract counter-model"}
+                rec["generalised"] = "countermodel of the abstraction; original asked again: " + res0["verdict"]
+                if res0["verdict"] in ("sat", "unsat"):
+                    res = res0
+                    ob.pc, ob.goal = opc, ogoal
+                else:
+                    amodel = res.get("model")
+                    res = dict(res0, verdict="unknown", note="counter-model only for the abstraction (nonlinear terms as uninterpreted functions); the exact obligation is " + str(res0.get("note") or "unknown"))
+                    rp = ob.meta.get("replay")
+                    if rp is not None and amodel is not None:
+                        # the replay (real code against the statement's oracle) decides whether this is a violation
+                        try:
+                            rec["replay_spec"] = rp(lambda t: _eval_model(amodel, to_term(t)))
+                            rec["abstract_model"] = _model_repr(amodel, syms)
+                        except Exception as e:
+                            rec["replay_error"] = repr(e)
             rec["backend"] = res["backend"]
             rec["seconds"] = res["seconds"]
             if res["verdict"] == "unsat":
